@@ -105,13 +105,25 @@ def global_fingerprint():
         for k, v in list(vars(mod).items()):
             if k.startswith("__"):
                 continue
-            if isinstance(v, (list, dict, set, frozenset)):
+            if isinstance(v, (list, dict, set, frozenset)) or _pkg_object(v):
                 items.append((name, k, _fp(v)))
             elif isinstance(v, type) and getattr(v, "__module__", None) == name:
                 for ck, cv in list(vars(v).items()):
-                    if not ck.startswith("__") and isinstance(cv, (list, dict, set, frozenset)):
+                    if not ck.startswith("__") and (isinstance(cv, (list, dict, set, frozenset)) or _pkg_object(cv)):
                         items.append((name, v.__name__ + "." + ck, _fp(cv)))
     return items
+
+
+def _pkg_object(v):
+    """an instance (not a class, function or module) of a class defined in the package, kept at module or
+    class level: e.g. a shared directive object, a shared stage, a shared parser"""
+    t = type(v)
+    return (
+        not isinstance(v, type)
+        and getattr(t, "__module__", "").startswith("architecture_simulator")
+        and hasattr(v, "__dict__")
+        and t.__name__ not in ("VirtualClock",)
+    )
 
 
 def _fp(v, depth=0):
